@@ -31,7 +31,7 @@ RULE = (
 REAL = ["place_objects", "apply_params", "Source.apply", "Detector.apply", "forward", "run_fdtd", "custom_fdtd_forward", "all boundary classes"]
 STUB = ["per-cell material arrays are written into the placed ArrayContainer (no public constructor for per-cell tensors)", "tqdm disabled"]
 ASSUMPTIONS = [
-    "float64; agreement criterion 1e-11 relative to the per-array max",
+    "float64; agreement criterion 1e-11 relative to the per-array max (arrays below 1e-3 of the field maximum, and field / Poynting records below the corresponding scale, are judged on that absolute scale so that components which vanish by cancellation are not compared with their own round-off)",
     "plane sources sit on planes whose material is exactly isotropic (the library rejects anisotropic planes); a scene rejected with a documented error counts as rejected",
     "detectors are raw (exact_interpolation=False) as the statement requires; energy detectors are not used in as_slices mode",
     "plane sources span >= 2 cells on both transverse axes (the library takes the first unit axis as propagation axis)",
@@ -82,16 +82,18 @@ def execute(spec):
     states = [st.state0(a) for st, a in zip(steppers, arrays)]
     dets = {d["name"]: d for d in spec["detectors"]}
 
-    f0 = None
+    f0, g_run = None, 0.0
     for t in range(T):
         states = [st.fwd(s) for st, s in zip(steppers, states)]
         rp.count_steps(stats, 3, scenes[0].dt)
         f0 = dr.fields_np(states[0])
         r0 = dr.detectors_np(states[0])
+        g = rp.field_scale(f0)
+        g_run = max(g_run, g)
         for k in (1, 2):
-            mon.dicts("fields_vs_relabelled", t, rp.perm_fields(f0, k), dr.fields_np(states[k]), TOL, replica=k)
+            mon.dicts("fields_vs_relabelled", t, rp.perm_fields(f0, k), dr.fields_np(states[k]), TOL, floors=rp.FLOOR * g, replica=k)
             want = {key: rp.perm_detector_record(dets[key.split("/")[0]], key, v, k) for key, v in r0.items()}
-            mon.dicts("records_vs_relabelled", t, want, dr.detectors_np(states[k]), TOL, replica=k)
+            mon.dicts("records_vs_relabelled", t, want, dr.detectors_np(states[k]), TOL, floors=rp.record_floors(spec, g_run, want), replica=k)
     nontrivial = bool(np.max(np.abs(f0["E"])) > 0 or np.max(np.abs(f0["H"])) > 0)
 
     # the same replica through the library's own loop ("schedule applied asymmetrically")
